@@ -344,9 +344,9 @@ func (c *bctx) ufApply(t *Term) interface{} {
 		}
 	}
 	if t.sort == SStr {
-		app.res = c.freshVec(c.L, "uf")
+		app.res = c.freshVec(2*c.L, "uf")
 		v := app.res.(*bvec)
-		c.side = append(c.side, mkGe(v.n, mkInt(0)), mkLe(v.n, mkInt(int64(c.L))))
+		c.side = append(c.side, mkGe(v.n, mkInt(0)), mkLe(v.n, mkInt(int64(2*c.L))))
 		for _, ch := range v.ch {
 			c.side = append(c.side, mkGe(ch, mkInt(0)), mkLe(ch, mkInt(255)))
 		}
